@@ -6,6 +6,7 @@ import (
 	"reflect"
 	"regexp"
 	"sort"
+	"strconv"
 	"strings"
 
 	crstate "github.com/elastos/Elastos.ELA/cr/state"
@@ -38,13 +39,19 @@ func keyString(v reflect.Value) string {
 	case reflect.String:
 		return v.String()
 	case reflect.Array:
-		b := make([]byte, v.Len())
-		for i := range b {
-			b[i] = byte(v.Index(i).Uint())
+		n := v.Len()
+		b := make([]byte, n)
+		if v.CanAddr() {
+			reflect.Copy(reflect.ValueOf(b), v)
+		} else {
+			for i := range b {
+				b[i] = byte(v.Index(i).Uint())
+			}
 		}
 		return hex.EncodeToString(b)
 	case reflect.Uint, reflect.Uint8, reflect.Uint16, reflect.Uint32, reflect.Uint64:
-		return fmt.Sprintf("%020d", v.Uint())
+		s := strconv.FormatUint(v.Uint(), 10)
+		return "00000000000000000000"[len(s):] + s
 	case reflect.Int, reflect.Int8, reflect.Int16, reflect.Int32, reflect.Int64:
 		return fmt.Sprintf("%020d", v.Int())
 	}
@@ -73,13 +80,13 @@ func walk(out *[]string, path string, v reflect.Value) {
 			k string
 			v reflect.Value
 		}
-		var l []kv
+		l := make([]kv, 0, v.Len())
 		it := v.MapRange()
 		for it.Next() {
 			l = append(l, kv{keyString(it.Key()), it.Value()})
 		}
 		sort.Slice(l, func(i, j int) bool { return l[i].k < l[j].k })
-		*out = append(*out, fmt.Sprintf("%s.len=%d", path, len(l)))
+		*out = append(*out, path+".len="+strconv.Itoa(len(l)))
 		for _, e := range l {
 			walk(out, path+"["+e.k+"]", e.v)
 		}
@@ -88,9 +95,9 @@ func walk(out *[]string, path string, v reflect.Value) {
 			*out = append(*out, path+"="+hex.EncodeToString(v.Bytes()))
 			return
 		}
-		*out = append(*out, fmt.Sprintf("%s.len=%d", path, v.Len()))
+		*out = append(*out, path+".len="+strconv.Itoa(v.Len()))
 		for i := 0; i < v.Len(); i++ {
-			walk(out, fmt.Sprintf("%s[%d]", path, i), v.Index(i))
+			walk(out, path+"["+strconv.Itoa(i)+"]", v.Index(i))
 		}
 	case reflect.Array:
 		if v.Type().Elem().Kind() == reflect.Uint8 {
@@ -98,20 +105,20 @@ func walk(out *[]string, path string, v reflect.Value) {
 			return
 		}
 		for i := 0; i < v.Len(); i++ {
-			walk(out, fmt.Sprintf("%s[%d]", path, i), v.Index(i))
+			walk(out, path+"["+strconv.Itoa(i)+"]", v.Index(i))
 		}
 	case reflect.Bool:
-		*out = append(*out, fmt.Sprintf("%s=%v", path, v.Bool()))
+		*out = append(*out, path+"="+strconv.FormatBool(v.Bool()))
 	case reflect.String:
-		*out = append(*out, fmt.Sprintf("%s=%q", path, v.String()))
+		*out = append(*out, path+"="+strconv.Quote(v.String()))
 	case reflect.Int, reflect.Int8, reflect.Int16, reflect.Int32, reflect.Int64:
-		*out = append(*out, fmt.Sprintf("%s=%d", path, v.Int()))
+		*out = append(*out, path+"="+strconv.FormatInt(v.Int(), 10))
 	case reflect.Uint, reflect.Uint8, reflect.Uint16, reflect.Uint32, reflect.Uint64:
-		*out = append(*out, fmt.Sprintf("%s=%d", path, v.Uint()))
+		*out = append(*out, path+"="+strconv.FormatUint(v.Uint(), 10))
 	case reflect.Float32, reflect.Float64:
-		*out = append(*out, fmt.Sprintf("%s=%v", path, v.Float()))
+		*out = append(*out, path+"="+strconv.FormatFloat(v.Float(), 'g', -1, 64))
 	default:
-		*out = append(*out, fmt.Sprintf("%s=?%s", path, v.Kind()))
+		*out = append(*out, path+"=?"+v.Kind().String())
 	}
 }
 
@@ -135,6 +142,18 @@ type Diff struct {
 
 // Compare returns nil when want and got are equal.
 func Compare(want, got []string) *Diff {
+	if len(want) == len(got) { // fast path: the walk is deterministic, equal states give equal slices
+		same := true
+		for i := range want {
+			if want[i] != got[i] {
+				same = false
+				break
+			}
+		}
+		if same {
+			return nil
+		}
+	}
 	ws := map[string]bool{}
 	for _, l := range want {
 		ws[l] = true
